@@ -28,6 +28,7 @@ pub fn cn_to_yaml(c: &CN) -> Yaml<'static> {
             }
             Yaml::Mapping(m)
         }
+        CN::Rep(v, st, t) => Yaml::Representation(v.clone().into(), *st, t.as_ref().map(|(h, x)| saphyr_parser::Tag { handle: h.clone(), suffix: x.clone() })),
         _ => Yaml::BadValue,
     }
 }
@@ -42,6 +43,7 @@ pub fn cn_json(c: &CN) -> J {
         CN::Str(s) => J::obj(vec![("t", J::s("str")), ("v", J::s(s))]),
         CN::Seq(v) => J::obj(vec![("t", J::s("seq")), ("v", J::Arr(v.iter().map(cn_json).collect()))]),
         CN::Map(v) => J::obj(vec![("t", J::s("map")), ("v", J::Arr(v.iter().map(|(k, x)| J::Arr(vec![cn_json(k), cn_json(x)])).collect()))]),
+        CN::Rep(v, _, t) => J::obj(vec![("t", J::s("rep")), ("v", J::s(v)), ("tag", t.as_ref().map_or(J::Null, |(h, x)| J::s(&format!("{h}\u{1}{x}"))))]),
         _ => J::obj(vec![("t", J::s("bad"))]),
     }
 }
@@ -65,6 +67,11 @@ pub fn json_cn(j: &J) -> CN {
                         .collect()
                 })
                 .unwrap_or_default(),
+        ),
+        "rep" => CN::Rep(
+            j.str_of("v"),
+            saphyr_parser::ScalarStyle::Plain,
+            j.get("tag").and_then(J::as_str).and_then(|t| t.split_once('\u{1}')).map(|(h, x)| (h.to_string(), x.to_string())),
         ),
         _ => CN::Bad,
     }
@@ -389,7 +396,23 @@ pub fn run_c09(tier: &str, seed: u64, shard: u64, nshards: u64, scale: f64, stat
         if i % 5000 == 0 {
             emit_progress(n + i);
         }
-        let t = gen_tree(&mut r, 0);
+        let t = if r.chance(1, 40) {
+            // a deep, narrow tree: the statement quantifies over every tree, not only shallow ones
+            let depth = r.range(6, 48);
+            let mut t = CN::Seq(vec![gen_scalar(&mut r), gen_scalar(&mut r)]);
+            for _ in 0..depth {
+                t = match r.below(4) {
+                    0 => CN::Seq(vec![t]),
+                    1 => CN::Seq(vec![gen_scalar(&mut r), t]),
+                    2 => CN::Map(vec![(CN::Str(r.pick(&["k", "key", "a b", "1"]).to_string()), t)]),
+                    _ => CN::Map(vec![(CN::Str("x".into()), gen_scalar(&mut r)), (CN::Str("y".into()), t)]),
+                };
+            }
+            stats.cnt("deep_trees", 1);
+            t
+        } else {
+            gen_tree(&mut r, 0)
+        };
         one(t, stats, i % 4 == 0, &mut r);
     }
 }
